@@ -18,7 +18,7 @@ SPEC = dict(
          "with 18 Retry-After forms incl. HTTP dates around 60 s, transport timeouts and errors, real client time-outs, closed "
          "connections), 1-4 destinations sharing host/key/dataset components, MaxBatchSize 1..16, BatchTimeout 1 ms..30 s, event "
          "sizes from 60 B to 5.3 MB incl. 1 000 000 +- 1, events that alone exceed the 5 MB request limit and sub-batches filled to 5 000 000 +- 1 bytes, marshal failures, "
-         "unbuildable URLs, concurrent enqueues (2-8 goroutines released together at the batch-map lookup, on 1-3 destinations "
+         "sample rates 0..2^64-1 (2^31-1, 2^31, 2^32, 2^53+1, 2^63-1, ...) checked on the wire, unbuildable URLs, concurrent enqueues (2-8 goroutines released together at the batch-map lookup, on 1-3 destinations "
          "not seen before), events enqueued while a timer-flushed batch of the same destination is held in flight by the upstream "
          "(incl. batches over 5 MB that need two requests), occasionally a dataset named '..', '.' or '' (known finding: url.JoinPath cleans it away); clock advances land on / 1 ns around ticker instants and staleness instants; non-trivial = at least "
          "three events enqueued and at least one request observed; distinct by transcript hash",
@@ -35,6 +35,10 @@ SPEC = dict(
                  "enqueue_order_independent shows the choice does not matter for what is sent and counted",
                  "every wait of the harness on the transmission is bounded by an idle watchdog (6 s without any metric call, request or "
                  "upstream read): a send or Stop that never finishes is observed as `hang`",
+                 "sample rates of 2^63 and above cannot be held by the int64 the wire format uses: the code's conversion wraps them "
+                 "(modelled by wireRate, generated, excluded from the samplerate monitor)",
+                 "the serialized size of an event is its payload (Payload.MarshalMsg) plus the prefix sendBatch itself writes for "
+                 "that time and sample rate (measured through sendBatch; the payload is the tail of the per-event encoding)",
                  "EnqueueEvent is not called after Stop (it would write to a nil map)"],
     manifest=dict(
         text="Lean theorems over all event streams, clock schedules and server behaviours: splitting of any size list terminates, keeps "
